@@ -1,21 +1,91 @@
 """SMT glue: z3 (python3-vt) with a timeout on every query; `unknown` is retried on /usr/bin/cvc5 via
 SMT-LIB2; `unknown` / timeout is undecided, never a violation."""
-import subprocess, tempfile, os, time
+import subprocess, tempfile, os, time, shutil
 import z3
 
 TIMEOUT_MS = int(os.environ.get('VT_SMT_TIMEOUT_MS', '20000'))
 STATS = {'z3': [0, 0.0], 'cvc5': [0, 0.0]}
 
 
-def check_unsat(formulas, timeout=None, try_cvc5=True):
-    """-> 'unsat' | 'sat' | 'unknown' (+ model for sat)"""
+EXTERNAL = [False]      # quantified queries are sent to a z3 child process that can be killed (see check_unsat_external)
+Z3_BIN = shutil.which('z3-new') or shutil.which('z3') or '/usr/bin/z3'
+
+
+def check_unsat_external(formulas, timeout=None, try_cvc5=True):
+    """same contract as check_unsat, but the query runs in a child process with a hard wall-clock kill:
+    in-process z3 occasionally ignores both its timeout and Z3_interrupt inside quantifier instantiation"""
+    timeout = timeout or TIMEOUT_MS
     s = z3.Solver()
-    s.set('timeout', timeout or TIMEOUT_MS)
     for f in formulas:
         s.add(f)
+    txt = s.to_smt2()
     t0 = time.time()
-    r = s.check()
+    path = None
+    try:
+        with tempfile.NamedTemporaryFile('w', suffix='.smt2', dir=os.environ.get('TMPDIR', '/dev/shm'), delete=False) as f:
+            f.write(txt); path = f.name
+        out = ''
+        try:
+            p = subprocess.run([Z3_BIN, f'-T:{max(1, int(timeout / 1000 + 0.999))}', path], capture_output=True, text=True, timeout=timeout / 1000 + 2)
+            out = p.stdout.strip().splitlines()[0] if p.stdout.strip() else ''
+        except subprocess.TimeoutExpired:
+            out = 'timeout'
+        STATS['z3'][0] += 1; STATS['z3'][1] += time.time() - t0
+        if os.environ.get('VT_SMT_LOG') and time.time() - t0 > 1.0:
+            with open(os.environ['VT_SMT_LOG'], 'a') as fh:
+                fh.write(f'{os.getpid()} ext {time.time() - t0:.2f}s {out} timeout={timeout}\n')
+        if out == 'unsat':
+            return 'unsat', None
+        if out == 'sat':
+            return 'sat', None
+        if try_cvc5 and os.path.exists('/usr/bin/cvc5'):
+            t1 = time.time()
+            try:
+                with open(path, 'w') as f:
+                    f.write('(set-logic ALL)\n' + txt)
+                p = subprocess.run(['/usr/bin/cvc5', '--tlimit=%d' % timeout, path], capture_output=True, text=True, timeout=timeout / 1000 + 5)
+                o2 = p.stdout.strip().splitlines()[0] if p.stdout.strip() else ''
+                STATS['cvc5'][0] += 1; STATS['cvc5'][1] += time.time() - t1
+                if o2 == 'unsat':
+                    return 'unsat', None
+            except Exception:
+                pass
+        return 'unknown', None
+    finally:
+        if path and os.path.exists(path):
+            os.unlink(path)
+
+
+def check_unsat(formulas, timeout=None, try_cvc5=True):
+    """-> 'unsat' | 'sat' | 'unknown' (+ model for sat)"""
+    if EXTERNAL[0]:
+        return check_unsat_external(formulas, timeout, try_cvc5)
+    s = z3.Solver()
+    s.set('timeout', timeout or TIMEOUT_MS)
+    # deterministic resource limit as a second guard: z3 does not always honour the wall-clock timeout inside
+    # quantifier instantiation; ~1.5e6 rlimit units per second of work on this machine
+    for f in formulas:
+        s.add(f)
+    if os.environ.get('VT_SMT_DUMP'):
+        with open(os.environ['VT_SMT_DUMP'], 'w') as fh:
+            fh.write(s.to_smt2())
+    t0 = time.time()
+    # hard wall-clock guard: interrupt the context from a timer thread (the solver timeout is not always honoured)
+    import threading
+    ctx = s.ctx
+    timer = threading.Timer((timeout or TIMEOUT_MS) / 1000.0 + 0.5, ctx.interrupt)
+    timer.daemon = True
+    timer.start()
+    try:
+        r = s.check()
+    except z3.Z3Exception:
+        r = z3.unknown
+    finally:
+        timer.cancel()
     STATS['z3'][0] += 1; STATS['z3'][1] += time.time() - t0
+    if os.environ.get('VT_SMT_LOG') and time.time() - t0 > 1.0:
+        with open(os.environ['VT_SMT_LOG'], 'a') as fh:
+            fh.write(f'{os.getpid()} {time.time() - t0:.2f}s {r} timeout={timeout}\n')
     if r == z3.unsat:
         return 'unsat', None
     if r == z3.sat:
@@ -48,7 +118,7 @@ class Solver:
     def implied(self, pc, f, final=False):
         t0 = time.time()
         r, _ = check_unsat(self.axioms + [p for p in pc if isinstance(p, z3.ExprRef)] + [z3.Not(f)],
-                           timeout=TIMEOUT_MS if final else 2000, try_cvc5=final)
+                           timeout=TIMEOUT_MS if final else 800, try_cvc5=final)
         self.queries += 1; self.seconds += time.time() - t0
         if r == 'unsat':
             return True
@@ -58,7 +128,7 @@ class Solver:
 
     def feasible(self, pc):
         t0 = time.time()
-        r, _ = check_unsat(self.axioms + [p for p in pc if isinstance(p, z3.ExprRef)], timeout=2000, try_cvc5=False)
+        r, _ = check_unsat(self.axioms + [p for p in pc if isinstance(p, z3.ExprRef)], timeout=800, try_cvc5=False)
         self.queries += 1; self.seconds += time.time() - t0
         return r != 'unsat'
 
